@@ -6,6 +6,7 @@ package main
 
 import (
 	"fmt"
+	"runtime"
 	"strings"
 
 	"github.com/gocql/gocql"
@@ -196,7 +197,7 @@ var rowsSuite = &suite{
 var framesSuite = &suite{
 	name:     "frames",
 	deciding: true,
-	memKiB:   1 << 20,
+	memKiB:   2 << 20,
 	blocks:   func(thorough bool) int { return len(getOtherCat(thorough)) },
 	run: func(c *child, b int) {
 		fc := getOtherCat(c.thorough)[b]
@@ -206,7 +207,9 @@ var framesSuite = &suite{
 		} else {
 			muts = []fmut{{raw: fc.raw, class: "valid", desc: "well-formed"}}
 		}
-		muts = append(muts, headerMutants(fc)...)
+		if c.thorough || !strings.Contains(fc.name, "refcql:") {
+			muts = append(muts, headerMutants(fc)...)
+		}
 		consumers := []string{"scan-meta"}
 		if c.thorough && fc.rows && strings.Contains(fc.name, "refcql:") {
 			consumers = []string{"scan-meta", "scanner", "mapscan", "slicemap"}
@@ -225,14 +228,16 @@ var framesSuite = &suite{
 			if !strings.Contains(fc.name, "[hdr]") || fc.compressor != nil {
 				n += len(bodyMutants(fc, 0))
 			}
-			n += len(headerMutants(fc))
+			if thorough || !strings.Contains(fc.name, "refcql:") {
+				n += len(headerMutants(fc))
+			}
 			kinds[fc.name[strings.Index(fc.name, "/")+1:]] = true
 		}
 		r.Extra("frames.frames", len(cat))
 		r.Extra("frames.kinds", len(kinds))
 		r.Extra("frames.mutants", n)
 		ruleParts = append(ruleParts, fmt.Sprintf(
-			"(d) frames: %d well-formed response frames (%d of them one per shape class and version of engine/refcql/frame's reference catalogue, protocol {2,4} quick / {1..5} thorough; the rest a hand-encoded catalogue; %d kinds in all: ERROR of every code incl. v5 reason maps and an unknown code, READY, AUTHENTICATE, SUPPORTED, AUTH_CHALLENGE/SUCCESS, RESULT void/set_keyspace/schema_change(all targets)/prepared(3 shapes)/unknown kind, EVENT topology/status(v4,v6)/schema/unknown, flags tracing+warning+payload, snappy-compressed variants; x protocol {2,3,4,5}) x {well-formed, stream ending at every offset, body cut at every offset with adjusted length, every length/count field incl. the header length replaced by {-2^31,-2,-1,0,1,n-1,n+1,65535,2^31-1}, header: version byte 0..7 in both directions + 7f/ff, each flag bit toggled + 00/ff, stream {-1,0,1,max,min,-2,0x4000}, every opcode 0..0x10 + {11,7f,80,ff}} (%d byte strings); stream -1 goes down the event path (parse + Session.handleEvent), everything else is parsed (rows: iterated with Scan into RowData; thorough: reference-catalogue rows also with Scanner, MapScan, SliceMap); non-trivial = parseFrame ran",
+			"(d) frames: %d well-formed response frames (%d of them one per shape class and version of engine/refcql/frame's reference catalogue, protocol {2,4} quick / {1..5} thorough; the rest a hand-encoded catalogue; %d kinds in all: ERROR of every code incl. v5 reason maps and an unknown code, READY, AUTHENTICATE, SUPPORTED, AUTH_CHALLENGE/SUCCESS, RESULT void/set_keyspace/schema_change(all targets)/prepared(3 shapes)/unknown kind, EVENT topology/status(v4,v6)/schema/unknown, flags tracing+warning+payload, snappy-compressed variants; x protocol {2,3,4,5}) x {well-formed, stream ending at every offset, body cut at every offset with adjusted length, every length/count field incl. the header length replaced by {-2^31,-2,-1,0,1,n-1,n+1,65535,2^31-1}, header: version byte 0..7 in both directions + 7f/ff, each flag bit toggled + 00/ff, stream {-1,0,1,max,min,-2,0x4000}, every opcode 0..0x10 + {11,7f,80,ff} (quick tier: header fields only on the hand-encoded frames)} (%d byte strings); stream -1 goes down the event path (parse + Session.handleEvent), everything else is parsed (rows: iterated with Scan into RowData; thorough: reference-catalogue rows also with Scanner, MapScan, SliceMap); non-trivial = parseFrame ran",
 			len(cat), nref, len(kinds), n))
 	},
 }
@@ -278,6 +283,11 @@ func runFrameCases(c *child, fc *frameCase, muts []fmut, consumers []string) {
 			}
 			in.Pad = 0xA5
 			bo := gocql.VerifC05Frame(in)
+			if alloc > 32<<20 {
+				// the second run's garbage must not count against the next case's
+				// address space either (see child.measure)
+				runtime.GC()
+			}
 
 			outcome := "ok"
 			switch {
